@@ -48,6 +48,9 @@ def _body_nodoc(fn):
     return body
 
 
+OUTFILE = 'HwLut.v'
+
+
 def translate(repo):
     src = (repo / 'scared' / 'models.py').read_text()
     tree = ast.parse(src)
